@@ -65,6 +65,9 @@ func vfScanNondeterminism(fr *frame, args []value) value {
 		if strings.HasPrefix(f.Name(), "vf") || strings.HasPrefix(f.Name(), "vc_") || strings.HasPrefix(f.Name(), "vt_") {
 			return
 		}
+		if strings.Contains(prog.Fset.Position(f.Pos()).Filename, "zz_verif_") {
+			return // harness code is not part of the library
+		}
 		for _, b := range f.Blocks {
 			for _, in := range b.Instrs {
 				switch in := in.(type) {
